@@ -536,6 +536,7 @@ def _move_dec_out_of_guard(root):
 
 
 MUTANTS = [
+    ("Event.wait without timeout never unregisters its waiter (self-removal moved below the early return; seeded C34-adv4)", _in("Event.wait", lambda root: _move_removal_down(root)), "C34.event-wait"),
     ("a cancelled timed Event.wait leaves its waiter registered (hook acts only on a failed, not cancelled wrapper; seeded C34-adv3)", _in("Event.wait", replace_expr(lambda n: isinstance(n, ast.Lambda) and "cancel()" in ast.unparse(n), lambda n: parse_expr("lambda tf: fut.cancel() if (not tf.cancelled() and tf.exception() is not None) else None"))), "C34.event-wait"),
     ("notify(n) wakes at most one waiter (while -> if)", _in("Condition.notify", lambda root: _while_to_if(root)), "C34.notify-ts"),
     ("notify() defaults to waking nobody (n=0)", _in("Condition.notify", lambda root: _set_default(root, 0)), "C34.notify-wake"),
@@ -580,4 +581,22 @@ def _while_to_if(root):
                     if isinstance(st, ast.While) and not st.orelse and not any(isinstance(x, (ast.Break, ast.Continue)) for x in ast.walk(st)):
                         body[i] = ast.If(test=st.test, body=st.body, orelse=[])
                         return True
+    return False
+
+
+def _move_removal_down(root):
+    body = root.body
+    for i, st in enumerate(body):
+        if isinstance(st, ast.Expr) and "_waiters.remove" in ast.unparse(st):
+            for j in range(i + 1, len(body)):
+                if isinstance(body[j], ast.If) and "timeout is None" in ast.unparse(body[j].test):
+                    body.insert(j + 1, body.pop(i)) if False else None
+                    rem = body.pop(i)
+                    # after the early return of the `timeout is None` branch: into the else branch / after the if
+                    target = body[j - 1]
+                    if target.orelse:
+                        target.orelse.insert(0, rem)
+                    else:
+                        body.insert(j, rem)
+                    return True
     return False
